@@ -265,7 +265,13 @@ def _one_field(prog: Program, res: Result):
                  and sum(1 for b_ in lp.body if isinstance(b_, ast.Expr) and isinstance(b_.value, ast.Call) and attr_chain(b_.value.func) == f"{bf.id}.append") == 1]
         init_empty = any(isinstance(s_, ast.Assign) and len(s_.targets) == 1 and isinstance(s_.targets[0], ast.Name) and s_.targets[0].id == bf.id
                          and isinstance(s_.value, ast.List) and not s_.value.elts for s_ in fi.node.body)
-        okn = okn and len(fills) == 1 and init_empty
+        # ... or is built in one go by an unfiltered comprehension over the coordinates, bound once
+        binds = [s_.value for s_ in ast.walk(fi.node) if isinstance(s_, ast.Assign) and any(isinstance(t_, ast.Name) and t_.id == bf.id for t_ in s_.targets)]
+        comp = len(binds) == 1 and isinstance(binds[0], ast.ListComp) and len(binds[0].generators) == 1 and not binds[0].generators[0].ifs \
+            and ast.unparse(binds[0].generators[0].iter) == "coordinates" \
+            and not any(isinstance(c_, ast.Call) and isinstance(c_.func, ast.Attribute) and isinstance(c_.func.value, ast.Name) and c_.func.value.id == bf.id
+                        and c_.func.attr in ("append", "extend", "pop", "remove", "insert", "clear") for c_ in ast.walk(fi.node))
+        okn = okn and ((len(fills) == 1 and init_empty) or comp)
     res.ob("R20.3", "pygfunction network flow = number of boreholes * per-borehole mass flow", okn, prog.loc(fi, fi.node))
     if not okn:
         res.violation("R20.3", "network-flow", prog.loc(fi, fi.node), q, "the network mass flow handed to pygfunction is not (number of boreholes of the network, one per coordinate) * m_flow_borehole")
